@@ -9,7 +9,7 @@ TRUSTED = [
     "vectors/wire_vectors.json, vectors/gens_digest.json: recorded once from the pinned release with this harness (the recording is trusted to have happened on 0.4.0)",
     "the independent straight-from-the-paper prover / verifier is the Gallina model (prove_core / proof_terms evaluated by coqc), run over the free-module group on the implementation's own "
     "oracle outputs; byte-for-byte comparison over Ristretto is limited to generators (Gallina derivation, C11), transcript operations, nonce keys and the recorded vectors: "
-    "STROBE and Blake2b are not re-implemented in Gallina",
+    "STROBE-128 / Merlin are re-implemented in Gallina (Crypto/Strobe.v) and replayed on the merlin logs of the fresh configurations (every challenge and RNG output byte for byte); Blake2b is not",
     "Cargo.lock pins rand_chacha / merlin / curve25519-dalek (the scripted prover RNG must reproduce the recorded proofs bit for bit)",
 ]
 
@@ -80,7 +80,10 @@ def run(run: Run):
             t = pmodel.prove_term(s["members"][0], o["members"][0])
             return [(t, (s, "prover", 0))] if t else []
 
-    sessions.run_sessions(run, fresh, oracle2, relevant=0xFF, extra_terms=Extra(), name="c19f")
+    fobs = sessions.run_sessions(run, fresh, oracle2, relevant=0xFF, extra_terms=Extra(), name="c19f")
+    # STROBE-128 / Merlin re-implemented in Gallina (Crypto/Strobe.v): every challenge and transcript-RNG output of these runs recomputed in Coq
+    from lib import merlinrep
+    merlinrep.replay_sessions(run, "c19", fresh, fobs, 10 if quick else 80)
     # the wire constants of the Gallina model itself: the labels, personas, nonce key layout and batch size the theorems speak about are the
     # ones the harness decodes the implementation's logs with (and whose Blake2b outputs C13 compares with the implementation's nonces)
     hdr = """From Coq Require Import NArith List Bool String Ascii.
